@@ -247,6 +247,12 @@ ILL = {
                                              ["phi", "degrees", 0, [-360, 360], "orientation", ""]],
     "orientation with only Iq": lambda P: P + [["theta", "degrees", 0, [-360, 360], "orientation", ""],
                                               ["phi", "degrees", 0, [-360, 360], "orientation", ""]],
+    # theta and phi in the right order at the end of the table, but not adjacent (only used with definitions that do
+    # have a 2-D function, so that nothing else is wrong with them)
+    "angles split by another parameter": lambda P: (P[:-1] + [["gap_len", "Ang", 10.0, [0, np.inf], "", ""]] + P[-1:])
+    if (len(P) >= 2 and P[-2][0] == "theta") else P + [["theta", "degrees", 0, [-360, 360], "orientation", ""],
+                                                       ["gap_len", "Ang", 10.0, [0, np.inf], "", ""],
+                                                       ["phi", "degrees", 0, [-360, 360], "orientation", ""]],
     "unknown parameter type": lambda P: _mod(P, 0, lambda p: p.__setitem__(4, "bogus")),
     "vector control non-integer": lambda P: P + [["m_ctl", "", 1.5, [0.5, 2.5], "", ""], ["vec[m_ctl]", "Ang", 1, [0, 10], "volume", ""]],
     # names that collide only after the table has been expanded into the names a caller can set
@@ -499,6 +505,8 @@ def run_case(case, rec):
         _run_wrapper(rec, rng, defn, name, dirpath, cpath, ppath, case)
     # one ill-formed variant of this definition must be rejected at load or build
     kind = sorted(ILL)[d % len(ILL)]
+    if defn["oriented"]:
+        kind = "angles split by another parameter"
     bad_c, bad_p = write_files(defn, name + "_bad", dirpath, ill=ILL[kind])
     for path in (bad_c, bad_p):
         try:
